@@ -13,10 +13,10 @@ pub fn prop() -> Prop {
     Prop {
         id: "C13",
         level: "model_checking",
-        rule: "(a) every alias of every function against the canonical name on every documented example and on every argument tuple (arity <=3) over 6 atoms of all types; (b) 48 expressions (a third reading :v, @m, a selected name or ^ after --split-by) as --select (first and later), --filter, --sort-by (both directions), --group-by, --split-by, --set macro and --set variable, the late positions also behind another --select over all sequences of <=3 (thorough <=4) values over 5 records, and over 700 records for the expressions reading variables and macros; (c) 40 expressions, and 22 big ones (nesting depth 9..65, 9..130 arguments, literals and names of 31..300 characters), in 14 spellings (separators blank, comma, comma-blank, two blanks, tab, newline; padding before the closing parenthesis; leading-dot sugar; a comma directly after a variable, macro, key, number, string) (d) --regular-expression-cache-size in {0,1,2,64} x all sequences of <=2 (thorough <=3) (subject, pattern) pairs over 4 subjects x 6 patterns and of <=4 (thorough <=5) over a 12-pair core (one invalid pattern; two pairs whose pattern+subject texts glue to the same string) through match and extract_regex_group, and sequences with 0/1/2/7 more distinct patterns than a cache of 2/3/16/64 holds, each revisited; five big patterns (\\w{30}, \\p{L}{60}, ..) under cache sizes 0/1/3/64; non-trivial = the compared forms differ textually and the value is not nothing; distinct by construction; (e) 12 expressions that use one macro body (given with --set) under different bindings of the names it mentions (define/set around the use, shadowing a --set binding), each alone against the reference evaluator and all ordered pairs (thorough: all triples) as selections of one run; in (b) sort and group positions are also tried next to a second --sort-by that ties every row",
+        rule: "(a) every alias of every function against the canonical name on every documented example and on every argument tuple (arity <=3) over 6 atoms of all types; (b) 48 expressions (a third reading :v, @m, a selected name or ^ after --split-by) as --select (first and later), --filter, --sort-by (both directions), --group-by, --split-by, --set macro and --set variable, the late positions also behind another --select over all sequences of <=3 (thorough <=4) values over 5 records, and over 700 records for the expressions reading variables and macros; (c) 40 expressions, and 22 big ones (nesting depth 9..65, 9..130 arguments, literals and names of 31..300 characters), in 14 spellings (separators blank, comma, comma-blank, two blanks, tab, newline; padding before the closing parenthesis; leading-dot sugar; a comma directly after a variable, macro, key, number, string) (d) --regular-expression-cache-size in {0,1,2,64} x all sequences of <=2 (thorough <=3) (subject, pattern) pairs over 4 subjects x 6 patterns and of <=4 (thorough <=5) over a 12-pair core (one invalid pattern; two pairs whose pattern+subject texts glue to the same string) through match and extract_regex_group, and sequences with 0/1/2/7 more distinct patterns than a cache of 2/3/16/64 holds, each revisited; five big patterns (\\w{30}, \\p{L}{60}, ..) under cache sizes 0/1/3/64; non-trivial = the compared forms differ textually and the value is not nothing; distinct by construction; (e) 12 expressions that use one macro body (given with --set) under different bindings of the names it mentions (define/set around the use, shadowing a --set binding), each alone against the reference evaluator and all ordered pairs (thorough: all triples) as selections of one run; in (b) sort and group positions are also tried next to a second --sort-by that ties every row; 23 patterns covering the constructs of the pattern syntax (counted repetition with braces, lone braces, alternation, anchors, classes, flags, escapes, optional groups, the empty pattern) x 11 subjects x cache sizes 0,1,2,64 against the regex crate, each with a regex call whose subject is the result of another regex call",
         explanation: "differential inside the implementation (same run, several selections; or the rows kept / ordered / grouped / produced versus the values the same expression has as a selection) and, for the regex cache, against the regex crate called directly",
         assumptions: COMMON_ASSUMPTIONS.to_vec(),
-        guards: vec!["one-macro-body-under-two-bindings", "position-next-to-another-sort", "big-patterns", "hundreds-of-rows-in-every-position", "more-patterns-than-the-cache-holds", "alias-with-value", "filter-kept-and-dropped", "sort-reordered", "group-two-keys", "split-produced-rows", "comma-after-variable", "dot-sugar", "cache-eviction", "invalid-pattern", "macro-position", "variable-position"],
+        guards: vec!["pattern-syntax-under-every-cache-size", "one-macro-body-under-two-bindings", "position-next-to-another-sort", "big-patterns", "hundreds-of-rows-in-every-position", "more-patterns-than-the-cache-holds", "alias-with-value", "filter-kept-and-dropped", "sort-reordered", "group-two-keys", "split-produced-rows", "comma-after-variable", "dot-sugar", "cache-eviction", "invalid-pattern", "macro-position", "variable-position"],
         budget_s: (100, 1800),
         single_worker: false,
         run,
@@ -647,6 +647,70 @@ fn cache_threshold_part(ctx: &mut Ctx) {
     ctx.level_done("d:more-distinct-patterns-than-the-cache-holds(sizes-2,3,16,64)");
 }
 
+/// every construct of the pattern syntax under every cache size (one pattern per run, met twice), and a regex call
+/// whose subject is itself the result of a regex call
+fn pattern_syntax_part(ctx: &mut Ctx) {
+    let patterns = ["a{2}", "xy{2,3}z", "q{", "a{2,}", "{", "}", "a}", "a|b", "^a", "b$", "a.b", "a*", "a?b", "[a-b]+", "(?i)AB", "\\d", "\\.", "\\{", "(a)|(b)", "(x)?(y+)", "ab", "", " "];
+    let subjects = ["caab", "xyyz", "q{", "ab", "a.b", "AB", "7", "}", "a}", "", "a b"];
+    for (pi, pt) in patterns.iter().enumerate() {
+        if !ctx.mine() {
+            continue;
+        }
+        for subj in subjects {
+            let rec = to_text_obj(subj, pt);
+            let input = format!("{rec}\n{rec}\n");
+            let mut m: Vec<(String, V)> = Vec::new();
+            if let Ok(re) = regex::Regex::new(pt) {
+                m.push(("m".into(), V::Bool(re.is_match(subj))));
+                if let Some(g) = re.captures(subj).and_then(|c| c.get(1)) {
+                    m.push(("g".into(), V::s(g.as_str())));
+                }
+                if let Some(g) = re.captures(subj).and_then(|c| c.get(2)) {
+                    m.push(("g2".into(), V::s(g.as_str())));
+                }
+                if let Some(w) = re.captures(subj).and_then(|c| c.get(0)) {
+                    m.push(("w".into(), V::s(w.as_str())));
+                    m.push(("n".into(), V::Bool(re.is_match(w.as_str()))));
+                }
+            } else {
+                ctx.guard("invalid-pattern");
+            }
+            let expected = vec![V::Obj(m.clone()), V::Obj(m)];
+            for size in ["0", "1", "2", "64"] {
+                let case = Case::owned(
+                    vec![
+                        format!("--regular-expression-cache-size={size}"),
+                        "--select=(match .s .p)=m".into(),
+                        "--select=(extract_regex_group .s .p 1)=g".into(),
+                        "--select=(extract_regex_group .s .p 2)=g2".into(),
+                        "--select=(extract_regex_group .s .p 0)=w".into(),
+                        "--select=(match (extract_regex_group .s .p 0) .p)=n".into(),
+                    ],
+                    input.clone().into_bytes(),
+                );
+                let obs = ctx.run(&case);
+                ctx.case_done();
+                ctx.trace_validated();
+                ctx.nontrivial();
+                ctx.guard("pattern-syntax-under-every-cache-size");
+                ctx.transition(&("syntax", pi, size));
+                let rows = json::parse_rows(&obs.stdout, b"\n").unwrap_or_default();
+                if !obs.res.is_ok() || rows != expected {
+                    ctx.outcome("violation");
+                    ctx.violation("regex-result-depends-on-the-cache", &format!("cache-size {size} pattern#{pi} {pt:?}"), &[case.clone()], super::pipe::texts(&expected), obs.brief());
+                } else {
+                    ctx.outcome("cache-ok");
+                }
+            }
+        }
+    }
+    ctx.level_done("d:pattern-syntax(23-patterns-x-11-subjects-x-4-cache-sizes,nested-call)");
+}
+
+fn to_text_obj(s: &str, p: &str) -> String {
+    json::to_text(&V::Obj(vec![("s".into(), V::s(s)), ("p".into(), V::s(p))]))
+}
+
 // ------------------------------------------------------------------ (e) one macro body used under several bindings
 
 const SHARED_SETS: [(&str, &str); 5] = [("@twice", "(| @f @f)"), ("@f", "(- . 1)"), ("@g", "@f"), ("@addv", "(+ . :v)"), ("v", "3")];
@@ -763,6 +827,7 @@ fn run(ctx: &mut Ctx) {
     spelling_part(ctx);
     cache_part(ctx);
     cache_threshold_part(ctx);
+    pattern_syntax_part(ctx);
     shared_site_part(ctx);
     let _ = Tier::Quick;
 }
